@@ -8,6 +8,7 @@ import (
 	"golang.org/x/tools/go/ssa"
 
 	"pv/core"
+	"pv/locks"
 )
 
 // checkSliceRemoval decides that fn removes exactly one element — the one at the index its search found — from the slice
@@ -182,4 +183,94 @@ func checkHuntMAC(c *Ctx, rule string, fn *ssa.Function) {
 	}
 	r.Add(core.Obligation{Rule: rule, Key: rule + " " + core.FuncName(fn) + " keeps its own copy of the MAC", Func: core.FuncName(fn), Pos: c.P.Pos(core.PosOf(goIns)), Status: st,
 		Basis: "addr.MAC = CopyMAC(addr.MAC) dominates the insertion and the loop start", Detail: "the hunt list and the loop keep the caller's MAC slice: when the caller reuses its buffer the loop's key changes, the loop ends with a restore sent to the new bytes (a host that is not hunted) and the original target stays in the list with no loop"})
+}
+
+// checkOneLoop: at most one spoof loop per MAC. StartHunt starts a loop only when the handler's record of running loops
+// has none for the MAC, and marks it in the same critical section; the loop clears its mark in the critical section in
+// which it finds itself released or closed. Without the record, StopHunt followed by StartHunt within one cycle leaves
+// the old loop running (it finds the MAC listed again) beside the new one: the stopped loop never terminates and the
+// target gets a doubled stream.
+func checkOneLoop(c *Ctx, rule string, start, loop *ssa.Function, mutexClass string) {
+	r := c.R
+	an := locksFor(c)
+	// StartHunt
+	var goIns ssa.Instruction
+	core.EachInstr(start, func(i ssa.Instruction) {
+		if g, ok := i.(*ssa.Go); ok && g.Call.StaticCallee() == loop {
+			goIns = i
+		}
+	})
+	st, det := core.Violated, "StartHunt starts a loop without consulting a record of running loops: after StopHunt the old loop is still asleep, finds the MAC listed again at its next wake-up and carries on beside the new one"
+	if goIns != nil {
+		gs := guardsOf(goIns)
+		marked := false
+		core.EachInstr(start, func(i ssa.Instruction) {
+			mu, ok := i.(*ssa.MapUpdate)
+			if !ok || !strings.HasSuffix(norm(mu.Map), ".loops") {
+				return
+			}
+			if k, isC := mu.Value.(*ssa.Const); !isC || norm(k) != "true" {
+				return
+			}
+			if heldW(an, start, i)[mutexClass] && (i.Block() == goIns.Block() || i.Block().Dominates(goIns.Block())) {
+				marked = true
+			}
+		})
+		// the record is read under the handler mutex too (the goroutine itself may be started after the unlock)
+		readLocked := false
+		for _, g := range gs {
+			if regexp.MustCompile(`^!recv\.loops\[.*\]$`).MatchString(g.Text) {
+				if ci, isI := g.Cond.(ssa.Instruction); isI && heldW(an, start, ci)[mutexClass] {
+					readLocked = true
+				}
+			}
+		}
+		if readLocked && marked {
+			st, det = core.Proved, ""
+		}
+	}
+	r.Add(core.Obligation{Rule: rule, Key: rule + " " + core.FuncName(start) + " starts at most one loop per MAC", Func: core.FuncName(start), Pos: c.P.Pos(start.Pos()), Status: st,
+		Basis: "go spoofLoop under !loops[mac], loops[mac] = true in the same critical section", Detail: det})
+	// the loop clears its mark where it decides to leave
+	st, det = core.Violated, "spoofLoop does not clear a record of running loops under the lock in which it decides to leave"
+	okAll, n := true, 0
+	core.EachInstr(loop, func(i ssa.Instruction) {
+		if _, ok := i.(*ssa.Return); !ok {
+			return
+		}
+		n++
+		cleared := false
+		core.EachInstr(loop, func(j ssa.Instruction) {
+			cl, isCall := j.(*ssa.Call)
+			if !isCall {
+				return
+			}
+			b, isB := cl.Call.Value.(*ssa.Builtin)
+			if !isB || b.Name() != "delete" || len(cl.Call.Args) != 2 || !strings.HasSuffix(norm(cl.Call.Args[0]), ".loops") {
+				return
+			}
+			if heldW(an, loop, j)[mutexClass] && core.InstrDominates(j, i) {
+				cleared = true
+			}
+		})
+		if !cleared {
+			okAll = false
+		}
+	})
+	if okAll && n > 0 {
+		st, det = core.Proved, ""
+	}
+	r.Add(core.Obligation{Rule: rule, Key: rule + " " + core.FuncName(loop) + " clears its mark before it returns", Func: core.FuncName(loop), Pos: c.P.Pos(loop.Pos()), Status: st,
+		Basis: fmt.Sprintf("%d returns, each dominated by delete(loops, mac) under the handler mutex", n), Detail: det})
+}
+
+var locksCache = map[*core.Program]*locks.Analysis{}
+
+func locksFor(c *Ctx) *locks.Analysis {
+	if a, ok := locksCache[c.P]; ok {
+		return a
+	}
+	a := locks.Analyse(c.P, c.P.LibFunctions(), isConstructor)
+	locksCache[c.P] = a
+	return a
 }
